@@ -1,11 +1,18 @@
 import RpmVerif.Driver.Common
 import RpmVerif.Model.Header
 import RpmVerif.Model.PgpFraming
+import RpmVerif.Model.Accessors
+import RpmVerif.Driver.FileIterObs
 /-! Driver for C04. Op `hostile BYTES`. The implementation's observation lists an outcome class per
 read-side stage; the model predicts the parse stages (ok / err — it has no reachable panic, Props/C04)
 and copies the classes of stages it does not model. Spec: no stage may be `panic`, the process may not
 die (`abort`), no single allocation may exceed 64 MiB + 16·|input| (`alloc-excess`), and the file iterator must
-end even for a consumer that keeps pulling after an error (`iter=runaway`: unbounded work / memory). -/
+end even for a consumer that keeps pulling after an error (`iter=runaway`: unbounded work / memory).
+The `iter=` field of uncompressed payloads IS predicted: `Acc.getFileEntries` (the header's file list) +
+`FileIter.collectMem` (`FileIterator::next` as a state machine on the in-memory stream, drained past error items like
+`collect()` does) give the number of items, their Ok / Err classes and the hash of their paths and contents
+(`iter=<k>:<classes>:<fnv>`, `iter=err` when `files()` itself fails); the model never says `runaway`
+(Props/C04Readside `iterator_no_runaway`). -/
 namespace RpmVerif.Driver.C04
 open RpmVerif.Hdr RpmVerif.Driver
 
@@ -45,6 +52,18 @@ def handle (op : String) (args : List String) (impl : String) : String :=
       let toks := (impl.splitOn " ").filter (· ≠ "")
       let bad := toks.filter fun t => t == "abort" || t.startsWith "alloc-excess" || t.endsWith "=panic" || t == "iter=runaway"
       let rest := toks.filter fun t => !(t.startsWith "parse=" || t.startsWith "meta=")
+      -- the drained file iterator (uncompressed payloads; the harness says `skip` otherwise)
+      let iterModel (implTok : String) : String :=
+        if implTok == "iter=skip" then implTok else
+        match parsePackage bs with
+        | .ok p =>
+          (match RpmVerif.Acc.getFileEntries p.md.signature p.md.header with
+          | .ok fes =>
+            let paths := fes.map (·.path)
+            "iter=" ++ FileIterObs.allObs (RpmVerif.FileIter.collectMem p.content paths (fes.map (·.size))) (fun i => paths.getD i [])
+          | _ => "iter=err")
+        | _ => implTok
+      let rest := rest.map fun t => if t.startsWith "iter=" then iterModel t else t
       let model := " ".intercalate ([s!"parse={pm}", s!"meta={mm}"] ++ rest.filter (fun t => t != "abort" && !t.startsWith "alloc-excess"))
       let verdict := match bad with
         | [] => "holds"
